@@ -2,7 +2,6 @@ SPECIFICATION Spec
 INVARIANT CursorTypeOK
 PROPERTY Progress
 PROPERTY Variant
-PROPERTY Terminates
 CONSTANTS
   Mode = "cursor"
   MaxLen = 5
